@@ -122,6 +122,113 @@ class LineInjector:
         return False
 
 
+_LINE_OF: dict = {}
+
+
+def line_of(code, offset: int) -> int:
+    """Source line of a bytecode offset."""
+    tab = _LINE_OF.get(code)
+    if tab is None:
+        tab = _LINE_OF[code] = [(a, b, ln) for a, b, ln in code.co_lines()]
+    for a, b, ln in tab:
+        if a <= offset < b:
+            return ln if ln is not None else code.co_firstlineno
+    return code.co_firstlineno
+
+
+class SignalInjector(LineInjector):
+    """Interrupt points as CPython really has them.  The interpreter looks at pending signals
+    (a) when a Python function is entered or a generator resumed, (b) right after a call of a
+    C function returns or raises, (c) at backward jumps.  A KeyboardInterrupt from Ctrl-C can only
+    surface at those instants - including *inside* a statement (after the call of `x = f()` has
+    returned, before x is bound).  This injector counts exactly those events (sys.monitoring
+    PY_START / PY_RESUME / C_RETURN / C_RAISE / backward JUMP) in the selected code objects and
+    raises at event k.  LINE events are still observed, uncounted, for the qualname trail and for
+    thread switch points."""
+
+    EVENTS = None
+
+    def _point(self, code, offset, kind):
+        if not self.want(code):
+            return None
+        if self.sched is not None and self.sched.current_helper() is not None:
+            return None
+        if self.gate is not None and not self.gate():
+            return None
+        lineno = line_of(code, offset)
+        self.count += 1
+        if self.record_sites:
+            self.sites.append((code.co_filename, lineno, code.co_qualname, kind))
+        if self.at is not None and (self.count == self.at or (self.second_at is not None and self.count == self.second_at)):
+            if kind == 'loop':
+                # CPython 3.12 mishandles an exception raised from a JUMP callback (it escapes every
+                # handler and finally clause of the frame): deliver it at the LINE event of the jump
+                # target instead, which is the very next thing that happens
+                self._pending_loop = (code, lineno, self.count)
+                return None
+            self.fired.append((code.co_filename, lineno, code.co_qualname, self.count, kind))
+            raise self.exc_factory()
+        return None
+
+    def virtual_point(self, label: str):
+        """An instant inside an OS-level call of the (virtual) multiprocessing layer."""
+        self.count += 1
+        if self.record_sites:
+            self.sites.append(('<os>', 0, label, 'in-os-call'))
+        if self.at is not None and (self.count == self.at or (self.second_at is not None and self.count == self.second_at)):
+            self.fired.append(('<os>', 0, label, self.count, 'in-os-call'))
+            raise self.exc_factory()
+
+    _pending_loop = None
+
+    def _line(self, code, lineno):
+        if not self.want(code):
+            return mon.DISABLE
+        sched = self.sched
+        if sched is not None:
+            h = sched.current_helper()
+            if h is not None:
+                sched.helper_point(h, (code.co_qualname, lineno))
+                return None
+        if self.gate is not None and not self.gate():
+            return None
+        if self._pending_loop is not None and self._pending_loop[0] is code:
+            _, ln, cnt = self._pending_loop
+            self._pending_loop = None
+            self.fired.append((code.co_filename, ln, code.co_qualname, cnt, 'loop'))
+            raise self.exc_factory()
+        if sched is not None and sched.live() and code.co_filename.endswith(self.switch_files):
+            sched.main_point((code.co_qualname, lineno))
+        self.trail.append(code.co_qualname)
+        return None
+
+    def __enter__(self):
+        try:
+            mon.use_tool_id(TOOL, 'verif_lt')
+        except ValueError:
+            mon.free_tool_id(TOOL)
+            mon.use_tool_id(TOOL, 'verif_lt')
+        E = mon.events
+        mon.register_callback(TOOL, E.LINE, self._line)
+        mon.register_callback(TOOL, E.PY_START, lambda code, off: self._point(code, off, 'entry'))
+        mon.register_callback(TOOL, E.PY_RESUME, lambda code, off: self._point(code, off, 'resume'))
+        mon.register_callback(TOOL, E.C_RETURN, lambda code, off, fn, a0: self._point(code, off, 'after-call'))
+        mon.register_callback(TOOL, E.C_RAISE, lambda code, off, fn, a0: self._point(code, off, 'after-call'))
+        mon.register_callback(TOOL, E.JUMP, lambda code, off, dest: self._point(code, off, 'loop') if dest < off else None)
+        # C_RETURN / C_RAISE are delivered as part of the CALL event group
+        mon.set_events(TOOL, E.LINE | E.PY_START | E.PY_RESUME | E.CALL | E.JUMP)
+        mon.restart_events()
+        return self
+
+    def __exit__(self, *exc):
+        E = mon.events
+        mon.set_events(TOOL, 0)
+        for ev in (E.LINE, E.PY_START, E.PY_RESUME, E.C_RETURN, E.C_RAISE, E.JUMP):
+            mon.register_callback(TOOL, ev, None)
+        mon.free_tool_id(TOOL)
+        return False
+
+
 def labtech_file(name: str) -> str:
     import labtech
     return os.path.join(os.path.dirname(os.path.abspath(labtech.__file__)), name)
